@@ -158,9 +158,9 @@ func genStructSpec(t *rapid.T, depth int) map[string]interface{} {
 func genData(t *rapid.T, s map[string]interface{}) interface{} {
 	switch s["k"].(string) {
 	case "string":
-		return rapid.SampledFrom([]string{"", "a", "b", "é", "xyz"}).Draw(t, "ds")
+		return rapid.SampledFrom([]string{"", "a", "b", "é", "xyz", "𝄞", "\ufffdx", "ǆ", "a\u0301"}).Draw(t, "ds")
 	case "float64":
-		return rapid.SampledFrom([]float64{0, 1, -1, 2.5, 10}).Draw(t, "df")
+		return rapid.SampledFrom([]float64{0, 1, -1, 2.5, 10, 1e21, 1e-7, 9007199254740993, 0.1}).Draw(t, "df")
 	case "bool":
 		return rapid.Bool().Draw(t, "db")
 	case "int":
@@ -388,6 +388,8 @@ type hwDoc struct {
 	_x     int
 	lower  string
 	Ünï    string
+	Ǆep    string // U+01C4: upper case of the digraph ǆ; its title case ǅ is a different letter
+	Ანი    string // Georgian Mtavruli capital: upper case of ა, which has no title case of its own
 	Ωmega  []string
 	Items  []*hwInner
 	Inner  hwInner
@@ -397,7 +399,7 @@ type hwDoc struct {
 	Strs   []string
 }
 
-var hwExprs = []string{"_x", "lower", "Lower", "\"ünï\"", "\"Ünï\"", "Items[*].\"ünï\"", "\"ωmega\"", "@.\"Ωmega\"", "[\"ünï\", \"ωmega\"]", "{a: \"ünï\"}", "\"ünï\" || Name", "length(\"ünï\")", "Label", "label", "hwEmbedded", "HwEmbedded.Label", "NilPtr.[Name]", "NilPtr.{a: Name}",
+var hwExprs = []string{"\"ǆep\"", "\"Ǆep\"", "\"ǅep\"", "\"ანი\"", "\"Ანი\"", "[\"ǆep\", \"ანი\"]", "Items[*].\"ǆep\"", "length(\"ანი\")", "_x", "lower", "Lower", "\"ünï\"", "\"Ünï\"", "Items[*].\"ünï\"", "\"ωmega\"", "@.\"Ωmega\"", "[\"ünï\", \"ωmega\"]", "{a: \"ünï\"}", "\"ünï\" || Name", "length(\"ünï\")", "Label", "label", "hwEmbedded", "HwEmbedded.Label", "NilPtr.[Name]", "NilPtr.{a: Name}",
 	"NilPtr || Name", "NilPtr && Name", "!NilPtr", "Items[*].Name", "Items[?Name].Tags[]", "Items[].Tags", "Items[0]", "Items[1]", "Items[1].[Name]", "Items[*].[Name]", "[Ptr, NilPtr]",
 	"reverse(Nums)", "reverse(Strs)", "contains(Strs, 'a')", "contains(Nums, `1`)", "map(&@, Nums)", "map(&Name, Items)", "sort_by(Items, &Name)", "max_by(Items, &Name)", "min_by(Items, &Name)",
 	"sort(Strs)", "sort(Nums)", "sum(Nums)", "avg(Nums)", "max(Nums)", "min(Strs)", "join(',', Strs)", "length(Items)", "length(Strs)", "length(Name)", "length(@)", "length(Inner)", "keys(@)", "values(@)",
@@ -413,7 +415,7 @@ var hwExprs = []string{"_x", "lower", "Lower", "\"ünï\"", "\"Ünï\"", "Items[
 func TestC18HandWritten(t *testing.T) {
 	in := &hwInner{Name: "n", Tags: []string{"x", "y"}}
 	docs := []interface{}{
-		hwDoc{Ünï: "u", Ωmega: []string{"o1", "o2"}, Label: "lab", Score: 2.5, On: true, Labels: []hwLabel{"b", "a"}, Name: "d", Items: []*hwInner{in, nil, {Name: "", Tags: []string{}}}, Inner: *in, Ptr: in, Nums: []float64{2, 1}, Strs: []string{"b", "a"}},
+		hwDoc{Ǆep: "dz", Ანი: "ge", Ünï: "u", Ωmega: []string{"o1", "o2"}, Label: "lab", Score: 2.5, On: true, Labels: []hwLabel{"b", "a"}, Name: "d", Items: []*hwInner{in, nil, {Name: "", Tags: []string{}}}, Inner: *in, Ptr: in, Nums: []float64{2, 1}, Strs: []string{"b", "a"}},
 		&hwDoc{Items: []*hwInner{}, Nums: []float64{}, Strs: []string{}},
 		(*hwDoc)(nil),
 		[]hwDoc{{Name: "x", Nums: []float64{1}, Strs: []string{"a"}, Items: []*hwInner{nil}}},
@@ -428,7 +430,9 @@ func TestC18HandWritten(t *testing.T) {
 				o := libSearch(expr, d)
 				n++
 				key := fmt.Sprintf("hw:%d:%s", di, expr)
-				st.RecordKey(key, true, func() interface{} { return map[string]string{"expr": expr, "doc": fmt.Sprintf("hand-written #%d", di), "result": showOut(o)} }, "handwritten")
+				st.RecordKey(key, true, func() interface{} {
+					return map[string]string{"expr": expr, "doc": fmt.Sprintf("hand-written #%d", di), "result": showOut(o)}
+				}, "handwritten")
 				if o.Panic != nil {
 					c := Case{Property: "C18", Kind: "handwritten", Expr: expr, Note: fmt.Sprintf("panic on hand-written document %d: %v", di, o.Panic)}
 					p := writeReplay(c)
@@ -440,6 +444,7 @@ func TestC18HandWritten(t *testing.T) {
 	// nil pointer fields behave as null on hand-written types too
 	d := docs[0]
 	for e, want := range map[string]string{"NilPtr.[Name]": "null", "NilPtr.{a: Name}": "null", "NilPtr || Name": `"d"`, "!NilPtr": "true", "Items[1].[Name]": "null", "Items[*].[Name]": `[["n"],[""]]`, "[Ptr, NilPtr][1]": "null", "Items[*].Name": `["n",""]`, "not_null(NilPtr, Name)": `"d"`,
+		`"ǆep"`: `"dz"`, `"Ǆep"`: `"dz"`, `"ანი"`: `"ge"`, `"Ანი"`: `"ge"`, `["ǆep", "ანი"]`: `["dz","ge"]`, `length("ანი")`: "2", `"ǆep" || Name`: `"dz"`,
 		`"ünï"`: `"u"`, `"Ünï"`: `"u"`, `"ωmega"[1]`: `"o2"`, `"Ωmega"[*]`: `["o1","o2"]`, `["ünï", "ωmega"[0]]`: `["u","o1"]`, `length("ünï")`: "1", `"ünï" || Name`: `"u"`, `{a: "ωmega"[::-1]}`: `{"a":["o2","o1"]}`} {
 		o := libSearch(e, d)
 		got, _ := normalise(o.Val)
@@ -944,7 +949,6 @@ func TestC18Rich(t *testing.T) {
 	st.Exhaustive["C18.rich-grid"] = fmt.Sprintf("%d left-hand sides x %d navigation/projection chains x %d right-hand sides x %d terminators on a rich struct document (shard %d/%d: %d expressions), struct form vs generic form", len(richLHS), len(richOps), len(richRHS), len(richEnd), shard, nshards, n)
 	st.mu.Unlock()
 }
-
 
 // ---------------------------------------------------------------------------
 // C13 on struct documents: one compiled expression searched over documents of several
